@@ -6,6 +6,7 @@ import PrefVerif.Lemmas.C19xColour
 import PrefVerif.Lemmas.C19xAxis
 import PrefVerif.Lemmas.C19fixMirror
 import PrefVerif.Lemmas.C19xMain
+import PrefVerif.Lemmas.C19onMain
 /-!
 # C19x — where the model of `is_one_euclidean` is complete
 
@@ -15,7 +16,7 @@ order), the pre-check and the colouring stage succeed and the LP handed to the s
 a solver that finds a feasible point whenever there is one, the function answers True).  The function takes
 the two extreme voters from the single-crossing arrangement found by the pre-check, which for a
 1-Euclidean profile with distinct orders lists the voters from left to right or from right to left.
-Property theorems only; helper lemmas live in `PrefVerif/Lemmas/C19x*.lean`.
+Property theorems only; helper lemmas live in `PrefVerif/Lemmas/C19x*.lean` and `PrefVerif/Lemmas/C19on*.lean`.
 -/
 namespace PrefVerif.C19x
 open PrefVerif PrefVerif.Euclid
@@ -32,24 +33,7 @@ theorem complete_partial (alts : List Nat) (orders : List (List Nat))
     ∃ l, lp alts orders = some l ∧ ∃ asg : Var → Rat, ∀ c ∈ l.constraints, satisfies asg c = true := by
   have halts' : alts.Nodup := halts.imp (fun h => Nat.ne_of_lt h)
   obtain ⟨l, hlp, hsorted⟩ := reach_lp alts orders halts' hord hnd h2 voters x hreal
-  obtain ⟨hcs, hperm, wf⟩ := C19.lp_wellFormed alts orders l halts' hord hlp
-  obtain ⟨g, v1, vn, _, hcp, _, hpr, _⟩ := C19.lp_eq_some alts orders l hlp
-  have hsub : ∀ a ∈ l.cplus, a ∈ alts := by
-    rw [hcp]; intro a ha; exact (List.mem_filter.1 ha).1
-  rcases hsorted with hsorted | hsorted
-  · -- the arrangement found by the pre-check runs from left to right: the embedding itself, scaled
-    have hr := realises_restrict alts orders voters x l.cplus l.axis hsub hperm hreal
-    rw [← hpr] at hr
-    obtain ⟨lam0, _, h⟩ := C19.lp_complete l.preferences l.axis voters x wf
-      (fun i j hij hj => List.pairwise_iff_getElem.1 hsorted i j (by omega) hj hij) hr
-    exact ⟨l, hlp, C19.scaled lam0 voters x, by rw [hcs]; exact h lam0 Rat.le_refl⟩
-  · -- it runs from right to left: the mirror image of the embedding, scaled
-    have hr := realises_restrict alts orders (voters.map (fun v => -v)) (fun a => -x a) l.cplus l.axis hsub hperm
-      (realises_mirror alts orders voters x hord hreal)
-    rw [← hpr] at hr
-    obtain ⟨lam0, _, h⟩ := C19.lp_complete l.preferences l.axis (voters.map (fun v => -v)) (fun a => -x a) wf
-      (fun i j hij hj => List.pairwise_iff_getElem.1 hsorted i j (by omega) hj hij) hr
-    exact ⟨l, hlp, C19.scaled lam0 (voters.map (fun v => -v)) (fun a => -x a), by rw [hcs]; exact h lam0 Rat.le_refl⟩
+  exact ⟨l, hlp, lpOn_feasible alts orders _ _ l halts' hord hlp voters x hreal hsorted⟩
 
 /-- with no grey alternative this makes the model exact: the LP is reached and feasible, and every feasible
 point is an embedding of the full profile -/
@@ -66,5 +50,43 @@ theorem nogrey_exact_partial (alts : List Nat) (orders : List (List Nat))
   obtain ⟨l, hlp, asg, hsat⟩ := complete_partial alts orders halts hord hnd h2 voters x hreal
   refine ⟨l, hlp, (C19.nogrey_partial alts orders l asg halts' hord hlp hgrey hsat).1, ⟨asg, hsat⟩,
     fun asg' hsat' => (C19.nogrey_partial alts orders l asg' halts' hord hlp hgrey hsat').2⟩
+
+/-! ### for ANY arrangement the pre-check may return
+
+`is_single_crossing` may return any valid single-crossing arrangement of the distinct orders (e.g. the same
+chain reversed); the correspondence check evaluates the model on the arrangement the implementation's own
+pre-check returned (`lpOn alts orders true s`).  The results above hold for every such `s`. -/
+
+/-- completeness of everything up to the LP, whatever arrangement `s` of the stored orders the pre-check
+returned -/
+theorem complete_on_partial (alts : List Nat) (orders s : List (List Nat))
+    (halts : alts.Pairwise (· < ·)) (hord : ∀ o ∈ orders, o.Perm alts) (hnd : orders.Nodup)
+    (h2 : 2 ≤ orders.length) (hs : s.Perm orders) (voters : List Rat) (x : Nat → Rat)
+    (hreal : Realised alts orders voters x) :
+    ∃ l, lpOn alts orders true s = some l ∧ ∃ asg : Var → Rat, ∀ c ∈ l.constraints, satisfies asg c = true := by
+  have halts' : alts.Nodup := halts.imp (fun h => Nat.ne_of_lt h)
+  obtain ⟨l, hlp, hsorted⟩ := reach_lpOn alts orders s halts' hord hnd h2 hs voters x hreal
+  exact ⟨l, hlp, lpOn_feasible alts orders true s l halts' hord hlp voters x hreal hsorted⟩
+
+/-- soundness without grey alternatives, whatever arrangement `s` of the stored orders the pre-check returned:
+every feasible point of the LP is an embedding of the full profile -/
+theorem nogrey_on_partial (alts : List Nat) (orders s : List (List Nat)) (l : LP) (asg : Var → Rat)
+    (halts : alts.Nodup) (hord : ∀ o ∈ orders, o.Perm alts) (hs : s.Perm orders)
+    (hlp : lpOn alts orders true s = some l) (hgrey : (stageOn alts true s).grey = [])
+    (hsat : ∀ c ∈ l.constraints, satisfies asg c = true) :
+    l.axis.Perm alts ∧
+    Spec.Euclid.realises orders (C19.voterPositions asg orders.length) (C19.altPositions asg l.axis) = true := by
+  have _ := hs  -- not needed: the LP stage never looks at the rest of the arrangement
+  exact C19.lpOn_nogrey alts orders true s l asg halts hord hlp hgrey hsat
+
+/-- the general meaning of a feasible point (grey alternatives or not), whatever arrangement was returned -/
+theorem lp_model_sound_on (alts : List Nat) (orders s : List (List Nat)) (l : LP) (asg : Var → Rat)
+    (halts : alts.Nodup) (hord : ∀ o ∈ orders, o.Perm alts) (hs : s.Perm orders)
+    (hlp : lpOn alts orders true s = some l) (hsat : ∀ c ∈ l.constraints, satisfies asg c = true) :
+    l.preferences = orders.map (fun o => o.filter (fun c => l.cplus.contains c)) ∧
+    (∀ i j (_ : i < j) (hj : j < l.axis.length), asg (.alt l.axis[i]) + 1 ≤ asg (.alt l.axis[j])) ∧
+    Spec.Euclid.realises l.preferences (C19.voterPositions asg orders.length) (C19.altPositions asg l.axis) = true := by
+  have _ := hs  -- not needed: the LP stage never looks at the rest of the arrangement
+  exact C19.lpOn_model_sound alts orders true s l asg halts hord hlp hsat
 
 end PrefVerif.C19x
